@@ -336,6 +336,37 @@ func checkValue(c *core.Ctx, su *setup, t *target, v *tlref.Value, stale func(f 
 			return fmt.Errorf("%s: tl.Unmarshal from a reader that returns short reads gives another value (%v)\n  %v\nwant\n  %s", t.name, err, back, v)
 		}
 	}
+	// every proper prefix of the layout is an incomplete value: decoding reads the same fields in the same order
+	// and must run out of bytes (all cuts for short layouts, otherwise the last 16 and a spread of others)
+	if len(want) > 0 {
+		cuts := map[int]bool{}
+		for k := 0; k < len(want) && k < 96; k++ {
+			cuts[k] = true
+		}
+		for k := len(want) - 16; k < len(want); k++ {
+			if k >= 0 {
+				cuts[k] = true
+			}
+		}
+		for k := 96; k < len(want); k += 1 + len(want)/24 {
+			cuts[k] = true
+		}
+		var ks []int
+		for k := range cuts {
+			ks = append(ks, k)
+		}
+		sort.Ints(ks)
+		for _, k := range ks {
+			p := reflect.New(t.goType)
+			var derr error
+			if perr := core.Protect(func() error { derr = tl.Unmarshal(bytes.NewReader(want[:k]), p.Interface()); return nil }); perr != nil {
+				return fmt.Errorf("%s: tl.Unmarshal panicked on the first %d of the %d bytes of a value: %v\nvalue %s", t.name, k, len(want), perr, v)
+			}
+			if derr == nil {
+				return fmt.Errorf("%s: tl.Unmarshal accepts the first %d of the %d bytes of a value as a complete value\nvalue %s\nbytes %s", t.name, k, len(want), v, clip(want[:k]))
+			}
+		}
+	}
 	// the same bytes followed by the next value of a stream: nothing beyond the value may be consumed
 	if err := decodeInto(append(append([]byte{}, want...), 0xb5, 0x75, 0x72, 0x99, 1, 2, 3), "reference bytes followed by other data"); err != nil {
 		return err
